@@ -7,6 +7,7 @@ value trees over all constructors, on the values the real pipeline produces, and
 import collections
 import json
 import os
+import re
 import subprocess
 import sys
 
@@ -30,6 +31,10 @@ CODES = {
                  11: "a stably typed value has two type variables", 12: "panic in register",
                  13: "a value without stable part shares its type variable", 14: "a variable without inference set"},
     "order": {4: "malformed output", 12: "panic in register", 15: "permuting the value list is not a renaming of the variables"},
+    "rule": {11: "a rule returned Err", 12: "panic in a rule",
+             16: "the judgement sets depend on the order in which the rule set is walked"},
+    "rulesperm": {11: "a rule returned Err", 12: "panic in a rule",
+                  17: "the judgement sets of a permuted value list are not a renaming of each other"},
     "rules": {1: "variable count differs", 2: "judgement sets differ", 3: "model does not return Ok", 11: "a rule returned Err",
               12: "panic in a rule"},
     "abi": {1: "layout differs from the model", 2: "error kind differs", 3: "panic/no-panic differs from the model",
@@ -267,7 +272,7 @@ def abi_cases(ctx):
 
 
 # ------------------------------------------------------------------------------------------------ running
-def run_lines(ctx, hb, cmd, lines, name):
+def run_lines(ctx, hb, cmd, lines, name, scale=1):
     """harness over lines in sharded children; a line that kills its child is reported as DIED"""
     ok, out, diag = vlib.run_harness_sharded(hb, cmd, lines, timeout=600)
     if not ok:
@@ -283,7 +288,7 @@ def run_lines(ctx, hb, cmd, lines, name):
         out = fixed
     bad = [l + " -> " + o for l, o in zip(lines, out) if o.startswith("BADINPUT") and "pipeline error" not in o]
     ctx.oblige("harness:" + name, "correspondence", not bad, "\n".join(bad[:3]))
-    lim = 30000 if ctx.quick else 400000
+    lim = (30000 if ctx.quick else 400000) * scale
     return [o if len(o) <= lim else "BADINPUT too large for this tier" for o in out]
 
 
@@ -346,7 +351,7 @@ def check(ctx):
     return vlib.finish(ctx, rule=RULE, samples=r or [])
 
 
-ALL_PARTS = ("register", "order", "rules", "rules-single", "abi", "classes")
+ALL_PARTS = ("register", "order", "rules", "rule-order", "rulesperm", "rules-single", "abi", "classes")
 
 
 def suite(ctx, translate=True, parts=ALL_PARTS, codes=None, cov_key=None, only=None):
@@ -414,6 +419,35 @@ def suite(ctx, translate=True, parts=ALL_PARTS, codes=None, cov_key=None, only=N
         outs = run_lines(ctx, hb, ["rules"], reg_lines, "rules")
         h = evaluate(ctx, "rules", "check_rules", reg_lines, outs, None, per_shard=max(1, len(reg_lines) // 32 + 1))
         cov["rules"] = {"cases": len(reg_lines), "codes": dict(h)}
+    # C02: the rule set walked in two orders (hook H1 at tc.rules: sorted / sortedrev / the set's own hash order)
+    if "rule-order" in parts:
+        ro_lines = reg_lines[: (300 if q else 3000)]
+        modes = ["sorted", "sortedrev", "natural", "seed:7"]
+        om = run_lines(ctx, hb, ["rules", "*", ",".join(modes)], ro_lines, "rule-order", scale=len(modes))
+        ro_l, ro_t = [], []
+        for l, o in zip(ro_lines, om):
+            parts_ = o.split(" ||| ")
+            if len(parts_) != len(modes) or not parts_[0].startswith("UC "):
+                continue
+            for mode, b in zip(modes[1:], parts_[1:]):
+                ro_l.append(l + "   ## rule order sorted vs " + mode)
+                ro_t.append("RO (%s) (%s)" % (parts_[0], b))
+        h = evaluate(ctx, "rule-order", "check_rule_order", ro_l, ro_t, None, per_shard=max(1, len(ro_t) // 32 + 1))
+        cov["rule_order"] = {"cases": len(ro_t), "modes": ["sorted vs sortedrev", "sorted vs natural (hash order)", "sorted vs seed:7"], "codes": dict(h)}
+    # C02: the value list registered and typed in two orders: tables equal up to renaming
+    if base and "rulesperm" in parts:
+        u1 = run_lines(ctx, hb, ["rules"], base, "rulesperm-a")
+        u2 = run_lines(ctx, hb, ["rules"], perm_lines, "rulesperm-b")
+        pl, pt = [], []
+        for l, p, a, b in zip(base, perms, u1, u2):
+            if a.startswith("UC ") and b.startswith("UC "):
+                ma, mb = re.match(r'UC "\*" (\[.*\]) (\(UR .*\)|UPanic|\(UErr .*\))$', a), re.match(r'UC "\*" (\[.*\]) (\(UR .*\)|UPanic|\(UErr .*\))$', b)
+                if not (ma and mb):
+                    continue
+                pl.append(l + "   ## perm " + str(p))
+                pt.append("OU %s [%s] %s %s" % (ma.group(1), ";".join("%d%%nat" % i for i in p), ma.group(2), mb.group(2)))
+        h = evaluate(ctx, "rulesperm", "check_rules_perm", pl, pt, None, per_shard=max(1, len(pt) // 16 + 1))
+        cov["rules_perm"] = {"cases": len(pt), "with_fresh": len([t for t in pt if "Mapping" in t]), "codes": dict(h)}
     rule_names = ["ArithmeticOperationRule", "BitShiftRule", "BooleanOpsRule", "CallDataRule", "CreateContractRule",
                   "DynamicArrayWriteRule", "EnvironmentCodesRule", "ExtCodeRule", "ExternalCallRule", "HashRule", "MappingAccessRule",
                   "MaskedWordRule", "OffsetSizeRule", "PackedEncodingRule", "SLoadIsInnerTypesRule", "StorageKeyRule", "StorageWriteRule"]
